@@ -332,6 +332,13 @@ def debug_only(t):
 
 
 WANTS_PROP = True
+
+
+def applies(facts, cfg):
+    """overflow asserts exist only when the crate is compiled with overflow checks"""
+    return bool(facts.j.get("overflow_checks"))
+
+
 # which functions' arithmetic belongs to which property (prefix of the def path / impl self type)
 SCOPE = {
     "C10": ("buf::buf_impl::",),
